@@ -16,6 +16,7 @@ package c12
 import (
 	"context"
 	"fmt"
+	"runtime/debug"
 	"sort"
 	"strings"
 	"sync"
@@ -62,10 +63,35 @@ func (o respObs) kind() string {
 	}
 }
 
+// inlinePool runs a submitted task on the caller's goroutine: a response is completely handled by
+// the receiver's task context before the next one is handed over (the production pool with one
+// worker gives the same order, but sleeps 5 ms whenever the worker is still busy).
+type inlinePool struct {
+	c       *xcluster
+	stopped bool
+}
+
+func (p *inlinePool) Submit(ctx context.Context, task *concurrent.Task) {
+	if ctx.Err() != nil {
+		return
+	}
+	defer func() {
+		if r := recover(); r != nil {
+			p.c.mu.Lock()
+			p.c.Panics = append(p.c.Panics, fmt.Sprintf("%v\n%s", r, debug.Stack()))
+			p.c.mu.Unlock()
+		}
+	}()
+	task.Exec()
+}
+
+func (p *inlinePool) Stopped() bool { return p.stopped }
+func (p *inlinePool) Stop()         { p.stopped = true }
+
 type xbroker struct {
 	name    string
 	node    models.StatelessNode
-	pool    concurrent.Pool // one worker: responses are handled strictly in hand-over order
+	pool    concurrent.Pool // responses are handled strictly in hand-over order
 	taskMgr query.TaskManager
 	proc    query.TaskProcessor
 }
@@ -90,6 +116,10 @@ type xcluster struct {
 	// manager answers with the leaf plan (what production does when only one storage node has shards).
 	Compute []string
 
+	// State, when set, answers Choose / GetDatabaseCfg instead of the mirror below (a production
+	// broker.StateManager fed with discovery events, see regression tests).
+	State broker.StateManager
+
 	// Order decides in which order the buffered responses of one request are released to the
 	// receiver (nil: canonical order = sorted by sender name).
 	Order func(receiver string, arrived []string) []string
@@ -97,6 +127,8 @@ type xcluster struct {
 	pending map[string][]pendingResp // receiver|request id -> buffered responses
 	expect  map[string]int           // receiver|request id -> requests sent by the receiver
 	Obs     []respObs
+	Panics  []string // panics while a receiver handled a response
+	Plans   []string // physical plans the production state manager chose (State != nil)
 }
 
 type pendingResp struct {
@@ -118,7 +150,7 @@ func newXCluster(brokers ...string) *xcluster {
 	for _, host := range brokers {
 		b := &xbroker{node: models.StatelessNode{HostIP: host, GRPCPort: 1}}
 		b.name = b.node.Indicator()
-		b.pool = concurrent.NewPool("verif-c12-"+host, 1, time.Second, metrics.NewConcurrentStatistics("verif-c12-"+host, linmetric.BrokerRegistry))
+		b.pool = &inlinePool{c: c}
 		b.taskMgr = query.NewTaskManager(b.pool, linmetric.BrokerRegistry)
 		c.brokers[b.name] = b
 	}
@@ -187,6 +219,17 @@ type xstate struct {
 }
 
 func (s *xstate) Choose(database string, numOfNodes int) ([]*models.PhysicalPlan, error) {
+	if s.c.State != nil {
+		plans, err := s.c.State.Choose(database, numOfNodes)
+		if err == nil {
+			s.c.mu.Lock()
+			for _, p := range plans {
+				s.c.Plans = append(s.c.Plans, string(encoding.JSONMarshal(p)))
+			}
+			s.c.mu.Unlock()
+		}
+		return plans, err
+	}
 	layout, ok := s.c.layout[database]
 	if !ok {
 		return nil, fmt.Errorf("database %s not found", database)
@@ -221,6 +264,9 @@ func (s *xstate) Choose(database string, numOfNodes int) ([]*models.PhysicalPlan
 }
 
 func (s *xstate) GetDatabaseCfg(name string) (models.Database, bool) {
+	if s.c.State != nil {
+		return s.c.State.GetDatabaseCfg(name)
+	}
 	cfg, ok := s.c.dbCfg[name]
 	return cfg, ok
 }
@@ -303,13 +349,19 @@ func (c *xcluster) handOver(receiver string, p pendingResp) {
 			o.Specs = len(tsList.FieldAggSpecs)
 		}
 	}
-	// the task client's receive loop: taskReceiver.Receive(resp, fromNode)
-	if err := c.brokers[receiver].taskMgr.Receive(p.resp, p.from); err != nil {
-		o.Dropped = true
-	}
+	// recorded before the hand-over: handling the last response completes the query
 	c.mu.Lock()
+	idx := len(c.Obs)
 	c.Obs = append(c.Obs, o)
 	c.mu.Unlock()
+	// the task client's receive loop: taskReceiver.Receive(resp, fromNode)
+	if err := c.brokers[receiver].taskMgr.Receive(p.resp, p.from); err != nil {
+		c.mu.Lock()
+		if idx < len(c.Obs) {
+			c.Obs[idx].Dropped = true
+		}
+		c.mu.Unlock()
+	}
 }
 
 func (c *xcluster) deliver(receiver string, resp *protoCommonV1.TaskResponse, from string) {
@@ -363,7 +415,7 @@ func (c *xcluster) Query(root, db, sqlText string) (*commonmodels.ResultSet, err
 		return nil, fmt.Errorf("harness: no broker %s", root)
 	}
 	c.mu.Lock()
-	c.Obs = nil
+	c.Obs, c.Plans = nil, nil
 	c.pending = map[string][]pendingResp{}
 	c.expect = map[string]int{}
 	c.mu.Unlock()
